@@ -209,7 +209,20 @@ def apply(carrier, cur, op):
     raise ValueError("bad op")
 
 
+def probe(case):
+    """_fudge_modified on its own: {"probe": "fudge", "old": us, "now": us, "v21": bool} -> microseconds"""
+    old = STIXdatetime(pytz.utc.localize(EPOCH + case["old"] * US))
+    now = STIXdatetime(pytz.utc.localize(EPOCH + case["now"] * US))
+    try:
+        r = stix2.versioning._fudge_modified(old, now, case["v21"])
+        return {"us": (r.replace(tzinfo=None) - EPOCH) // US}
+    except Exception as e:  # noqa: BLE001
+        return {"exc": type(e).__name__}
+
+
 def run(case):
+    if "probe" in case:
+        return probe(case)
     carrier, ver = case["carrier"], case["ver"]
     try:
         cur = build(case)
